@@ -84,7 +84,9 @@ OBIT = bit('other->_storage', 'g_q')
 UNITS += [
     ba('empty', dict(name='empty', nparams=0), {
         'BitArrayT__empty': dict(
-            requires=[SELF],
+            # (the representation invariant -- padding bits of the last unit are zero, kept by every operation -- is part of the
+            #  precondition: an empty() that masks the padding and one that relies on the invariant are both correct)
+            requires=[SELF, PAD0],
             assigns=[],
             ensures=[('C20', '__CPROVER_return_value == !%s' % any_unit_nonzero('self->_storage', 'BitArrayT__UNIT_COUNT'))],
             loops={0: dict(assigns=['__k0'],
